@@ -445,6 +445,17 @@ package backend
 // (ghost assignment "registered := err == nil" at the return)
 //@   assume_ensures [ghost-assignment] registered == (old(registered) || err == nil)
 
+// ---- C05: the filters between the hub / the cache and a watcher ----
+// filterByRevision drops leading events only: the result is a suffix of the batch and its first event
+// is not below the start revision (that everything dropped is older did not discharge and is not claimed)
+//@ func filterByRevision(events, rev) (result)
+//@   props C05 C20
+//@   requires [events-are-objects] forall(i, 0 <= i && i < len(events), events[i] != nil)
+//@   ensures [suffix] result.obj == events.obj && result.off+len(result) == events.off+len(events) && len(result) <= len(events)
+//@   ensures [first-kept-is-not-older] len(result) > 0 ==> result[0].Revision >= rev
+//@   loop 0 invariant [suffix] events.obj == old(events.obj) && events.off+len(events) == old(events.off+len(events)) && len(events) <= old(len(events)) && events.off >= old(events.off)
+//@   loop 0 invariant [events-are-objects] forall(i, 0 <= i && i < len(events), events[i] != nil)
+
 //@ func (*backend).Watch(ctx, prefix, revision) (ch, err)
 //@   props C06
 //@   nosafety
